@@ -23,6 +23,8 @@ def run_one(job):
     from resolve import Unresolved
     module, func, params, prefix = job[:4]
     mod = importlib.import_module(module)
+    import models_str
+    models_str.set_blocks(params.get('blocks') if isinstance(params, dict) else None)
     ctx = PathCtx(prefix)
     t = time.time()
     try:
